@@ -580,3 +580,50 @@ Proof.
         destruct o as [h op|q r hh]; [destruct Hx|]. destruct Hx as (<- & <- & <-). left. reflexivity.
       * right. rewrite F1, F4, F5. eapply Q2; eassumption.
 Qed.
+
+(* ====================================================================================== *)
+(* 7. well-scheduled histories are good runs                                                *)
+(* ====================================================================================== *)
+From Verif Require Import Proofs.OracleRoundDistinct.
+
+(* block structure (operations of height H, then the end blocker of H), block time strictly increasing,
+   data-spec updates keep windows >= 1 block *)
+Fixpoint hsched (H T : Z) (ops : list hop) : Prop :=
+  match ops with
+  | [] => True
+  | HRound h op :: t =>
+      h = H /\ match op with OUpdateSpec _ _ w => 1 <= w | OEndBlock ts => T < ts | _ => True end
+      /\ hsched (match op with OEndBlock _ => H + 1 | _ => H end) (match op with OEndBlock ts => ts | _ => T end) t
+  | HFlag _ _ _ :: t => hsched H T t
+  end.
+
+(* no end blocker fails along the run (a failing end blocker halts the chain: C02) *)
+Fixpoint hrun_ok (qinfos : list qinfo) (s : ostate) (ops : list hop) : Prop :=
+  match ops with
+  | [] => True
+  | o :: t =>
+      match o with
+      | HRound h (OEndBlock ts) => end_block s h ts (kind_of qinfos) <> None
+      | _ => True
+      end /\ hrun_ok qinfos (hstep qinfos s o) t
+  end.
+
+Lemma flag_kinv s q r hh H : kinv s H -> kinv (with_aggs s (flag q r hh (o_aggs s))) H.
+Proof. unfold kinv. cbn. auto. Qed.
+
+Theorem hsched_good_run qinfos : forall ops s H T,
+  kinv s H -> hsched H T ops -> hrun_ok qinfos s ops -> good_run qinfos s ops T.
+Proof.
+  induction ops as [|o t IH]; intros s H T K Hs Hok; [exact I|].
+  cbn [hrun_ok] in Hok. destruct Hok as [Hok1 Hok2].
+  destruct o as [h op|q r hh]; cbn [hsched] in Hs.
+  - destruct Hs as (-> & Hop & Hs). destruct op as [q a|q rep stake mn v|ts|qs|b hits w]; cbn [good_run].
+    + eapply IH; [|exact Hs | exact Hok2]. cbn [hstep]. apply run_step_kinv; [exact K | reflexivity | exact I].
+    + eapply IH; [|exact Hs | exact Hok2]. cbn [hstep]. apply run_step_kinv; [exact K | reflexivity | exact I].
+    + split; [exact Hop|]. split; [apply kinv_closing_distinct; exact K|].
+      eapply IH; [|exact Hs | exact Hok2]. cbn [hstep]. unfold run_step. cbn [fst snd model_step].
+      destruct (end_block s H ts (kind_of qinfos)) as [s1|] eqn:Ee; [|congruence]. eapply end_block_kinv; eassumption.
+    + eapply IH; [|exact Hs | exact Hok2]. cbn [hstep]. apply run_step_kinv; [exact K | reflexivity | exact I].
+    + eapply IH; [|exact Hs | exact Hok2]. cbn [hstep]. apply run_step_kinv; [exact K | reflexivity | exact Hop].
+  - cbn [good_run]. eapply IH; [|exact Hs | exact Hok2]. cbn [hstep]. apply flag_kinv. exact K.
+Qed.
